@@ -967,6 +967,51 @@ func waitBitfield(e *env, id string) {
 	}
 }
 
+// raceTrace: RemoveTorrent(a) against AddTorrent(ID: a).  The database is held by a write transaction of the harness
+// (scheduler gate) until the remove has detached the torrent and the add has passed the duplicate check; the gate is
+// opened when the add leaves GetStorage, so that both reach the database at about the same time.  Which of the two
+// transactions runs first is up to the runtime; the trace is judged like any other concurrent history.
+func raceTrace(T *tracer, pool []*meta, seed int64, idx int) {
+	rng := rand.New(rand.NewSource(seed*13000027 + int64(idx)))
+	e := newEnv(T, rng, pool, 3, false)
+	defer e.cleanup()
+	e.init("race", idx)
+	if err := e.open(); err != nil {
+		panic(err)
+	}
+	e.obs()
+	e.callAdd(1, addSpec{m: pool[1], kind: "torrent", stopped: true, id: "a"})
+	e.obs()
+	release := torrent.VerifC14HoldDB(e.s)
+	var once sync.Once
+	gate := func(id string) {
+		if id == "a" {
+			once.Do(func() {
+				if d := rng.Intn(4); d > 0 {
+					time.Sleep(time.Duration(d*20) * time.Microsecond)
+				}
+				release()
+			})
+		}
+	}
+	e.prov.gate.Store(&gate)
+	var wg sync.WaitGroup
+	wg.Add(2)
+	go func() { defer wg.Done(); e.callRemove(2, "a") }()
+	for i := 0; i < 2000 && e.s.GetTorrent("a") != nil; i++ {
+		time.Sleep(50 * time.Microsecond)
+	}
+	go func() { defer wg.Done(); e.callAdd(3, addSpec{m: pool[2], kind: "torrent", stopped: true, id: "a"}) }()
+	wg.Wait()
+	once.Do(release)
+	e.prov.gate.Store(nil)
+	e.obs()
+	e.callReopen(1, nil)
+	if !e.dead {
+		e.obs()
+	}
+}
+
 // ---------------------------------------------------------------------------------------------
 
 func child(mode string, seed int64, from, to, nops, k int, out string) {
@@ -983,6 +1028,8 @@ func child(mode string, seed int64, from, to, nops, k int, out string) {
 			burstTrace(T, pool, seed, i, k, nops, true)
 		case "probe":
 			probeTrace(T, pool, seed, i)
+		case "race":
+			raceTrace(T, pool, seed, i)
 		default:
 			panic("unknown mode " + mode)
 		}
